@@ -330,6 +330,16 @@ class CHECK(Check):
                            "g": [rng.choice(["a", "b"]) for _ in range(n)]}
 
     def exhaustive(self, tier):
+        # the loss objects on a grid of bounds (ordered, equal, inverted) x labels x predictions, both containers
+        vals = ["-1/2", "0", "1/4", "1/2", "1", "3/2"]
+        for loss in ("square", "absolute"):
+            for lo in ("-1/2", "0", "1/2", "1"):
+                for hi in ("-1/2", "0", "1/2", "1"):
+                    yield {"kind": "loss", "loss": loss, "lo": lo, "hi": hi,
+                           "y": [a for a in vals for _ in vals], "h": [b for _ in vals for b in vals],
+                           "g": ["a" if (i // 6) % 2 == 0 else "b" for i in range(36)]}
+        yield {"kind": "loss", "loss": "zeroone", "lo": "0", "hi": "1", "y": [a for a in vals for _ in vals],
+               "h": [b for _ in vals for b in vals], "g": ["a"] * 18 + ["b"] * 18}
         for moment in ("tpr", "fpr", "eo"):
             for y in itertools.product("01", repeat=4):
                 for g in itertools.product("ab", repeat=4):
